@@ -15,10 +15,11 @@ META = {
             "TRANSIENT_FAILURE; random hash: first READY, at most one IDLE endpoint asked to connect and none when one is CONNECTING).  "
             "TLC checks for all endpoint sets of <= 3 (thorough 5) endpoints with weights {1,2,3,100} and bounds {1,2,5,8} that "
             "min <= size <= max and |entries_k - scale*w_k| <= 1 (negative control: scale not capped at max), and for every ring of "
-            "<= 3 (4) entries over 2-3 endpoints, every state assignment and request hash that the walk satisfies the statement.  The "
+            "<= 3 (4) entries over 2 endpoints / <= 2 (3) over 3 endpoints, every state assignment and request hash that the walk satisfies "
+            "the statement.  The "
             "real newRing is run on every insertion order (all permutations for <= 3 endpoints) of the endpoint map for the same "
             "endpoint sets plus default-sized and random sets (<= 12 endpoints, sizes <= 4096); the real picker built by "
-            "newPickerLocked is run on 5 small rings for every state assignment and request hashes just below / equal / just above "
+            "newPickerLocked is run on 5 small rings for every state assignment (a sample of 40 in the quick tier) and request hashes just below / equal / just above "
             "every entry, 0, 2^64-1 (xDS request hash, header hash, random hash); TLC validates the recorded rings (hashes as four "
             "16-bit limbs) and pick results.",
     "note": "Decides exactly the enumerated and sampled inputs.  Ring entries of rings above 16 entries are only counted per endpoint "
@@ -44,7 +45,7 @@ def run(ctx):
     t1 = os.path.join(ctx.run, "ring.ndjson")
     t2 = os.path.join(ctx.run, "pick.ndjson")
     ctx.driver(binary, "TestVerifC37Ring", {"VERIF_OUT": t1, "VERIF_N": ctx.pick(150, 3000), "VERIF_MAXN": ctx.pick(3, 4)})
-    ctx.driver(binary, "TestVerifC37Pick", {"VERIF_OUT": t2, "VERIF_ASSIGN": ctx.pick(64, 256)})
+    ctx.driver(binary, "TestVerifC37Pick", {"VERIF_OUT": t2, "VERIF_ASSIGN": ctx.pick(40, 256)})
     t3 = os.path.join(ctx.run, "all.ndjson")
     with open(t3, "w") as f:
         f.write(open(t1).read())
@@ -59,19 +60,20 @@ def run(ctx):
                 % (res["clause"], what, cfg["ws"], cfg["min"], cfg["max"], json.dumps(short)[:300]),
                 {"clause": res["clause"], "config": cfg, "event": bad, "line": res["line"]})
 
-    res = ctx.validate("RingHashTrace", "RingHashTrace.cfg", t3, count_resets=False, timeout=2400)
+    # strict pass over the rings (the pick traces declare max = size + 1, so the size clause is about the ring cases only)
+    res = ctx.validate("RingHashTrace", "RingHashTrace.cfg", t1, count_resets=False, timeout=2400)
     if not res["accepted"]:
         text, art = report(res, "strict pass")
         if res["clause"] == "C37_SizeAboveMax":
-            # one known input class; everything else is judged by the tolerant pass, which accepts only
+            # one known input class; everything else is judged by the tolerant pass below, which accepts only
             # "size = max + 1 and the exact (rational) ring size is max"
             ctx.finding(SIG, text, art)
-            res2 = ctx.validate("RingHashTrace", "RingHashTraceTol.cfg", t3, count_resets=False, timeout=2400)
-            if not res2["accepted"]:
-                text2, art2 = report(res2, "tolerant pass")
-                ctx.violation(text2, art2)
         else:
             ctx.violation(text, art)
+    res2 = ctx.validate("RingHashTrace", "RingHashTraceTol.cfg", t3, count_resets=False, timeout=2400)
+    if not res2["accepted"] and not (not res["accepted"] and res["clause"] != "C37_SizeAboveMax" and res2["line"] == res["line"]):
+        text2, art2 = report(res2, "tolerant pass")
+        ctx.violation(text2, art2)
     npick = 0
     for r in rows:
         if r["ev"] == "ringcfg":
